@@ -18,6 +18,8 @@ import Driver.Proto
 import AdaptaVerif.Model.ShortestPaths
 import AdaptaVerif.Check.Apsp
 import AdaptaVerif.Model.PairingHeap
+import AdaptaVerif.Gen.ShortestPathsK
+import AdaptaVerif.Gen.DijkstraK
 namespace Driver.C17
 open Driver AdaptaVerif.Num AdaptaVerif.Model.ShortestPaths AdaptaVerif.Check.Apsp
 
@@ -150,6 +152,8 @@ def checkGraph (c : Case) : CaseResult := Id.run do
     let dx := c.get "dx"
     if dx.size != n then return fail (.diverge s!"expected {n} dx lines, got {dx.size}")
     let mut tiedRuns := 0
+    let genVs := AdaptaVerif.Gen.ShortestPathsK.dijkstra_init (Array.replicate n default)
+      (g.edges.map fun e => (e.1, e.2.1)) (g.edges.map fun e => some e.2.2)
     for s in [0:n] do
       let run := dijkstraHeapRun g s
       for j in [0:n] do
@@ -163,6 +167,12 @@ def checkGraph (c : Case) : CaseResult := Id.run do
         return fail (.diverge s!"extraction order of dijkstra(s={s}) differs: model {mo} impl {io}")
       let keys := io.map fun v => DJ.get s v
       if keys.eraseDups.length != keys.length then tiedRuns := tiedRuns + 1
+      -- the functions GENERATED from shortest_paths.h (dijkstra_init, then the whole dijkstra with the model heap, fuel n)
+      -- on the same graph and source: translator cross-check against the C++ distances
+      let gd := (AdaptaVerif.Gen.DijkstraK.dijkstra s genVs (Array.replicate n none) AdaptaVerif.Gen.KeysShortest.modelOps n).2
+      for j in [0:n] do
+        if Vec.at gd j != DJ.get s j then
+          return fail (.diverge s!"generated dijkstra (cpp2lean) differs from C++ dijkstra at s={s} j={j}: generated {showDist (Vec.at gd j)} impl {showDist (DJ.get s j)} (translator)")
     stats := stats ++ [("dijkstraHeap.runs-compared", n), ("dijkstraHeap.runs-with-tied-keys", tiedRuns)]
   -- 4. floyd_warshall last
   let mut modelNote := ""
@@ -177,6 +187,13 @@ def checkGraph (c : Case) : CaseResult := Id.run do
       ("fwmodel.current-and-prefix-differ", if (matEq n MF MO).isSome then 1 else 0)]
     modelNote := if eqF then " model-current=agrees" else if eqO then " model-prefix-code=agrees" else " model=differs"
     modelDiverges := !eqF
+    -- the kernel GENERATED from shortest_paths.h, run on an array full of junk (the C++ array is uninitialised): translator cross-check
+    let GF := AdaptaVerif.Gen.ShortestPathsK.floyd_warshall n (Mat.const n (some 12345)) (g.edges.map fun e => (e.1, e.2.1))
+      (g.edges.map fun e => some e.2.2)
+    stats := stats ++ [("fwgen.compared", 1), ("fwgen.agrees", if (matEq n GF FW).isNone then 1 else 0)]
+    if eqF then
+      if let some (i, j) := matEq n GF MF then
+        return { verdict := .diverge s!"generated floyd_warshall (cpp2lean) differs from the model at i={i} j={j} (translator)", nontrivial := nontrivial, stats := stats }
   if !checkApsp g FW.get then
     let cls := if loops && par then "selfloop+parallel" else if loops then "selfloop" else if par then "parallel" else "simple"
     return { verdict := .specfail s!"alg=floyd_warshall graphclass={cls} {explain g FW.get}{modelNote}", nontrivial := nontrivial, stats := stats }
